@@ -67,7 +67,10 @@ func dumpPval(v px.Value, depth int) string {
 // "-" = a value outside the model)
 func parseObs(text string, aux map[string]string) {
 	toks, failure, _, _ := types.VerifTokens(text)
+	// the text itself and whether the lexer read all of it: the tie of the whole-text lexer model (Model/LiteralText.v)
+	aux["ptext"] = hx(text)
 	if failure != nil {
+		aux["plexfail"] = "1"
 		return
 	}
 	var ts, fl []string
